@@ -48,6 +48,7 @@ func init() {
 }
 
 func runC05(r *Run) {
+	r.NoSharedBigIntInLoop([]string{"consensus", "common/types.", "chain/momentum."}, "decoded or computed per-element numbers (weights, amounts) must be separate objects")
 	r.CacheInventory([]string{"consensus", "consensus/storage", "verifier", "pillar"}, cacheTriage, "an election or a verdict memoised under a key that does not pin the chain it was computed on (a tick, a height) survives a reorganisation below it")
 	r.Alias("$m", "recv.momentum")
 	r.Alias("$look", "make(map[types.HashHeight]*nom.AccountBlock)")
@@ -149,7 +150,7 @@ func runC05(r *Run) {
 		r.Branch(f, "eq(recv[a0]"+e+".Weight,recv[a1]"+e+".Weight)", "ties on weight are detected")
 		r.Returns(f, []string{"(recv[a0]" + e + ".Name<recv[a1]" + e + ".Name)", "(recv[a1]" + e + ".Weight.Cmp(recv[a0]" + e + ".Weight)<0)"}, "total order (Weight desc, Name asc): sort.Sort is unstable, so without the tie-break equal weights are ordered by input order")
 	}
-	r.Has("chain/momentum.(*momentumStore).ComputePillarDelegations", "sort.Sort(iter(make([]*types.PillarDelegationDetail)))", "the delegation list handed to the election is sorted by the total order")
+	r.Has("chain/momentum.(*momentumStore).ComputePillarDelegations", "sort.Sort(iter(make([]*types.PillarDelegationDetail,0,len(recv.GetActivePillars()#0))))", "the delegation list handed to the election is sorted by the total order")
 	r.Branch("consensus.generateProducers", "ne(conv:int(a0.Consensus.NodeCount),len(a2))", "a schedule has exactly NodeCount slots or none")
 	r.Has("consensus.generateProducers", "store new(consensus.ProducerEvent).Producer = a2[iter]", "slot i belongs to producer i of the elected list")
 	gp := "consensus.(*electionManager).generateProducers"
